@@ -5,6 +5,7 @@ import (
 	"io"
 	"net"
 	"net/http"
+	"path"
 	"strconv"
 	"sync"
 	"sync/atomic"
@@ -18,11 +19,14 @@ import (
 // the front end) are read and discarded so that the model of "what the back
 // end holds" stays exact. HEAD/GET answer 200 + Content-Length, or 404 -
 // unless a fault is scripted for the path (see fault.go): then HEAD, the
-// existence check of the real httpproxy, is answered with that fault.
+// existence check of the real httpproxy, is answered with that fault. The
+// answer to HEAD for a digest with an armed gate (gate.go) is held until the
+// harness releases it.
 type objStore struct {
 	mu     sync.RWMutex
 	objs   map[string]storeObj
 	faults map[string]scriptedFault
+	gates  *gateSet // answers to HEAD held until released (gate.go); nil = none
 
 	srv *http.Server
 	URL string
@@ -75,6 +79,11 @@ func (s *objStore) ServeHTTP(w http.ResponseWriter, r *http.Request) {
 			s.heads.Add(1)
 		} else {
 			s.gets.Add(1)
+		}
+		if r.Method == http.MethodHead && s.gates != nil {
+			if !s.gates.wait(path.Base(r.URL.Path), r.Context().Done()) {
+				return // the client has gone
+			}
 		}
 		s.mu.RLock()
 		o, ok := s.objs[r.URL.Path]
